@@ -142,6 +142,7 @@ impl<'a> Minimiser<'a> {
                     Box::new(|s| s.timeout = None),
                     Box::new(|s| s.fail_on_timeout = false),
                     Box::new(|s| s.mailbox = None),
+                    Box::new(|s| s.stopped_yields = 0),
                     Box::new(|s| {
                         if let Some(st) = s.stream.as_mut() {
                             st.script.pop();
